@@ -44,7 +44,16 @@ def corpus_list():
                  corpus.Rule('M', corpus.S(corpus.Asg('hs', '*=', corpus.Ref('H')), corpus.Asg('ds', '+=', corpus.Ref('D')))),
                  corpus.Rule('H', corpus.S(corpus.Sup(corpus.Ref('Kw')), corpus.Asg('n', '=', corpus.INT))),
                  corpus.Rule('D', corpus.S(corpus.Ref('Kw'), corpus.Asg('name', '=', corpus.ID), corpus.Ref('Kw'))),
-                 corpus.Rule('Kw', corpus.Ref('Key')), corpus.Rule('Key', corpus.Str('k'))])]
+                 corpus.Rule('Kw', corpus.Ref('Key')), corpus.Rule('Key', corpus.Str('k'))]),
+             # the text matched by an object may start or end with whitespace (a regex that matches blanks,
+             # a rule that does not skip whitespace): the span is what was matched, blanks included
+             corpus.G('span-ends-with-blanks', [
+                 corpus.Rule('M', corpus.Asg('ls', '+=', corpus.Ref('L'))),
+                 corpus.Rule('L', corpus.S(corpus.Str('s'), corpus.Asg('t', '=', corpus.Re(r'[a ]*'))))]),
+             corpus.G('span-starts-with-blanks', [
+                 corpus.Rule('M', corpus.S(corpus.Asg('ls', '+=', corpus.Ref('L')), corpus.Str(';'))),
+                 corpus.Rule('L', corpus.S(corpus.Asg('t', '=', corpus.Re(r' +')), corpus.Asg('n', '=', corpus.INT)),
+                             skipws=False)])]
     return [g for g in corpus.ALL if g['name'] in names] + extra
 
 
